@@ -50,14 +50,18 @@ var (
 	registry []*Informer
 	Mode     = Controlled
 	nextID   int
+	release  = make(chan struct{}) // closed by Reset: lets the Run goroutines of the previous world end
 )
 
-// Reset forgets all informers created so far (one world per process at a time).
+// Reset forgets all informers created so far (one world per process at a time) and releases the Run
+// goroutines of controlled informers of the previous world, so that 10^5 worlds do not leak goroutines.
 func Reset() {
 	regMu.Lock()
 	defer regMu.Unlock()
 	registry = nil
 	nextID = 0
+	close(release)
+	release = make(chan struct{})
 }
 
 // Registry returns the informers created since the last Reset, in creation order.
@@ -82,6 +86,7 @@ type Informer struct {
 	syncedCh  chan struct{}
 	stoppedCh chan struct{}
 	listErr   error
+	release   chan struct{}
 }
 
 func NewSharedIndexInformer(lw cache.ListerWatcher, example runtime.Object, resync time.Duration, indexers cache.Indexers) cache.SharedIndexInformer {
@@ -89,6 +94,7 @@ func NewSharedIndexInformer(lw cache.ListerWatcher, example runtime.Object, resy
 	defer regMu.Unlock()
 	nextID++
 	inf := &Informer{
+		release:   release,
 		ID:        nextID,
 		lw:        lw,
 		indexer:   cache.NewIndexer(cache.DeletionHandlingMetaNamespaceKeyFunc, indexers),
@@ -174,7 +180,14 @@ func (i *Informer) Run(stopCh <-chan struct{}) {
 		i.mu.Unlock()
 		close(i.syncedCh)
 	}
-	<-stopCh
+	if mode == Controlled {
+		select {
+		case <-stopCh:
+		case <-i.release:
+		}
+	} else {
+		<-stopCh
+	}
 	if w != nil {
 		w.Stop()
 	}
@@ -250,6 +263,11 @@ func (i *Informer) Resync() {
 			h.OnUpdate(o, o)
 		}
 	}
+}
+
+// ReplaceSilently sets the cache content without notifying anyone (snapshot restore).
+func (i *Informer) ReplaceSilently(objs []interface{}) {
+	_ = i.indexer.Replace(objs, "")
 }
 
 // Keys returns the sorted cache keys.
